@@ -2,6 +2,7 @@ CONSTANTS
   P = 8
   Precs = {5}
   NCands = 2
+  Enclosed = FALSE
 INIT BInit
 NEXT BNext
 INVARIANT FoldWellTiled
